@@ -223,7 +223,7 @@ impl EvaluatedDecisionTable {
     }
     let output_values = matching_rules
       .iter()
-      .map(|evaluated_rule| evaluated_rule.output_entry_values[0].clone())
+      .filter_map(|evaluated_rule| evaluated_rule.output_entry_values.first().cloned())
       .collect::<Vec<Value>>();
     dmntk_feel_evaluator::evaluate_sum(output_values)
   }
@@ -238,7 +238,7 @@ impl EvaluatedDecisionTable {
     }
     let output_values = matching_rules
       .iter()
-      .map(|evaluated_rule| evaluated_rule.output_entry_values[0].clone())
+      .filter_map(|evaluated_rule| evaluated_rule.output_entry_values.first().cloned())
       .collect::<Vec<Value>>();
     dmntk_feel_evaluator::evaluate_min(output_values)
   }
@@ -253,7 +253,7 @@ impl EvaluatedDecisionTable {
     }
     let output_values = matching_rules
       .iter()
-      .map(|evaluated_rule| evaluated_rule.output_entry_values[0].clone())
+      .filter_map(|evaluated_rule| evaluated_rule.output_entry_values.first().cloned())
       .collect::<Vec<Value>>();
     dmntk_feel_evaluator::evaluate_max(output_values)
   }
